@@ -56,7 +56,17 @@ MEMPOOL_HARNESSES = [
      'obligations': ['REAL MemPool::removeAll with a VTB that is connected once or twice (resubmission of a connected payload): afterwards neither the per-type map nor the VBK relations hold it, and generatePopData never returns it again'],
      'rungs': {'quick': [{'bound': 'one VTB connected 1..2 times on VBK block 3 (pool state constructed directly), removeAll, generatePopData', 'timeout': 200}], 'thorough': [{'bound': 'as quick', 'timeout': 400}]}},
 ]
+CTX_HARNESSES = [
+    {'name': 'h_realctx', 'src': 'real/h_realctx.cpp', 'entry': 'h_realctx', 'repo_srcs': srcsets_real.REAL, 'covers': [1, 2, 3, 4, 5, 6], 'jobs': 6,
+     'obligations': ['REAL AltBlockTree: an ATV whose context info differs from the endorsed block\'s own in exactly one component (height, first previous keystone, second previous keystone) makes its block invalid; the honest one activates',
+                     'REAL AltBlockTree: a payload carried legitimately by two sibling fork blocks is still detected as a duplicate in a descendant of the surviving fork after the other fork was removed (removeSubtree) or emptied (removePayloads)'],
+     'rungs': {'quick': [{'bound': 'ALT chain of 7 (keystone interval 2, endorsed block at height 5 has both previous keystones), 4 context variants; fork scenario: 2 x 2 variants', 'timeout': 250}], 'thorough': [{'bound': 'as quick', 'timeout': 500}]}},
+]
 INV_HARNESSES = [
+    {'name': 'h_realbody', 'src': 'real/h_realbody.cpp', 'entry': 'h_realbody', 'repo_srcs': srcsets_real.REAL, 'covers': [1, 2, 3], 'jobs': 8,
+     'obligations': ['REAL AltBlockTree with bodies arriving before their parent\'s and removePayloads() on connected and on not-yet-connected blocks: after every call the ALT payload index is exactly the set of (payload id, block) pairs of the existing blocks (both directions), the tip set is the set of usable blocks without usable child, connected blocks have connected ancestors',
+                     'payloads removed from a block and delivered again in a descendant are not duplicates: the chain activates'],
+     'rungs': {'quick': [{'bound': 'ALT chain of 4; both body orders of blocks 2 and 3; removePayloads never / after the first body / after both, on block 2 or 3; optional ATV', 'timeout': 250}], 'thorough': [{'bound': 'as quick', 'timeout': 500}]}},
     {'name': 'h_realinv', 'src': 'real/h_realinv.cpp', 'entry': 'h_realinv', 'repo_srcs': srcsets_real.REAL, 'covers': [1, 2, 3, 4], 'jobs': 16,
      'obligations': ['REAL AltBlockTree under histories mixing setState / invalidateSubtree / revalidateSubtree / removeSubtree / re-announcement of a removed block: after every call links, heights, failed-propagation and the tip set are consistent, the best chain runs only through valid blocks, exactly root..tip are ACTIVE and applied, the payload index describes exactly the payloads of the existing blocks, the VBK tree holds exactly the context of the active chain, removed blocks are in no view',
                      'invalidateSubtree marks the whole subtree and moves the tip out of it; revalidateSubtree of the block that carries the mark clears it; setState refuses exactly the failed blocks'],
